@@ -132,3 +132,17 @@ From Incr.Proofs Require Import HeightLimit FrameHeightLimit.
 Lemma history_height_limit fuel N dbg ops : (0 <= N)%Z ->
   while_ok (run_history fuel N dbg ops) HL.
 Proof. intros HN. unfold run_history. apply run_height_limit. by apply HL_init. Qed.
+
+(* ---- the force_necessary pin (all builds, up to the first failing operation) *)
+From Incr.Proofs Require Import ForcePin FrameForcePin.
+
+Lemma history_no_pin fuel max_height dbg ops :
+  while_ok (run_history fuel max_height dbg ops) (FNx []).
+Proof. unfold run_history. apply run_no_pin. apply FNx_init. Qed.
+
+Lemma no_pin_necessary s n x : FNx [] s -> nodes s !! n = Some x ->
+  is_necessary x = negb (bool_decide (n_parents x = [])) || negb (bool_decide (n_observers x = [])).
+Proof.
+  intros A Hx. unfold is_necessary. destruct (n_force_necessary x) eqn:Hf; [|by rewrite orb_false_r].
+  specialize (A n x Hx Hf). by apply elem_of_nil in A.
+Qed.
